@@ -187,6 +187,16 @@ class Cookie:
         return f"<Cookie {self.name}: {self.value}>"
 
 
+# Characters that would end the path / the query component of a URL (or that
+# urlsplit drops) when they occur literally inside it.
+_URL_PATH_UNSAFE = "?#\t\r\n"
+_URL_QUERY_UNSAFE = "#\t\r\n"
+
+
+def _percent_encode(text: str, unsafe: str) -> str:
+    return "".join("%%%02X" % ord(c) if c in unsafe else c for c in text)
+
+
 class URL:
     __slots__ = ("_url", "_components")
 
@@ -236,6 +246,7 @@ class URL:
         server: typing.Optional[typing.Tuple[str, typing.Optional[int]]] = None,
         host_header: typing.Optional[str] = None,
     ) -> str:
+        path = _percent_encode(path, _URL_PATH_UNSAFE)
         if host_header is not None:
             url = f"{scheme}://{host_header}{path}"
         elif server is None:
@@ -251,7 +262,8 @@ class URL:
                 url = f"{scheme}://{host}:{port}{path}"
 
         if query_string:
-            url = f"{url}?{query_string.decode()}"
+            query = _percent_encode(query_string.decode(), _URL_QUERY_UNSAFE)
+            url = f"{url}?{query}"
 
         return url
 
